@@ -792,6 +792,36 @@ def clause_f(c: Check):
                     serr = out.args.get('stderr_file') if isinstance(out, Record) else None
                     ok = util.attr_chain(sin)[1][-2:] == ('_atc_files', 'stdin') \
                          and util.attr_chain(serr)[1][-3:] == ('_atc_files', 'output', 'err')
+    # the transformation of the action to check is applied on every path: what reaches the stdout of the action is
+    # <the transformer>.transform(<source of the file the program wrote>) - an empty output is transformed too (a
+    # transformer may well produce something from nothing)
+    ex = ix.func(PEX + ':_ExecutorWithTransformation.execute')
+
+    class HT(Hooks):
+        def inline(self, fd, st):
+            return False
+
+    n_ret = 0
+    for p in util.func_paths(ix, fo, ex, HT()):
+        if p.kind != 'return':
+            continue
+        n_ret += 1
+        tr = [e for e in p.calls() if isinstance(e.node.func, ast.Attribute) and e.node.func.attr == 'transform']
+        wr = [e for e in p.calls() if isinstance(e.node.func, ast.Attribute) and e.node.func.attr == 'write_to']
+        ok_t = False
+        if len(tr) == 1 and len(wr) == 1:
+            recv = tr[0].data.get('recv')
+            if recv is None:
+                cv = tr[0].data.get('callee_val')
+                recv = cv.origin[1] if isinstance(cv, Sym) and cv.origin and cv.origin[0] == 'attr' else None
+            ok_t = util.attr_chain(recv)[1][-1:] == ('_resolved_transformer_for_program',) \
+                   and util.attr_chain(wr[0].data['args'][0])[1][-3:] == ('_atc_files', 'output', 'out')
+        guards = [('' if t else 'not ') + unparse(g) for g, t in p.guards]
+        c.expect(ok_t, 'C10-f', '_ExecutorWithTransformation/transformation-applied-on-every-path',
+                 'the action to check with a transformation returns%s without (exactly once) transforming the output '
+                 'of the program and writing the result to the stdout of the action' % (
+                     (' when ' + ', '.join(guards)) if guards else ''), ex.loc())
+    c.require(n_ret >= 1, 'C10-f: _ExecutorWithTransformation.execute has no returning path')
     c.expect(ok, 'C10-f', '_ExecutorWithTransformation/stdin-and-stderr-handed-on',
              'the act program with a transformation is not executed with the stdin and stderr given for the action to '
              'check', f.loc())
